@@ -207,6 +207,8 @@ GRAMMARS_OK = ["@export\nA = 'x';\n", "@export\nA = 'y';\n", "@export\nA = 'x' b
                "@export\nA = 'x';\n# mv48hbz4\n", "@export\nA = 'y';\n# pxz11qsd\n"]
 GRAMMARS_BAD = ["@export\nA = 'x'", "A = ;;;", "@export A = !b:B; B='x';", "", "@export\nA = >Missing;\n"]
 PREFIXES = ['', 'use a;', 'use a;\nuse b;', 'use a;\n', '// p', 'pub struct X;', 'use a;\nuse b;\nuse c;']
+# prefixes for the `.format()` mode: rustfmt keeps the first five as they are and rewrites the last two
+PREFIXES_FMT = ['', 'use a;', 'use a;\nuse b;', '// p', 'pub struct X;', 'use b;use a;', 'pub   struct  Y ;']
 K1_PAIR = ("@export\nA = 'x';\n# mv48hbz4\n", "@export\nA = 'y';\n# pxz11qsd\n")
 K1P_PAIR = ('use a;\n// kpe7aavz\n', 'use a;\n')
 
@@ -228,6 +230,10 @@ def fs_histories(seed, tier):
     for d in directed:
         for mode in ('file', 'dest', 'dir', 'dirlink'):
             hs.append((mode, ['D' if (o == 'N' and mode.startswith('dir')) else o for o in d]))
+    # `.format()`: rustfmt rewrites the destination after the fact; prefixes it keeps and prefixes it rewrites
+    for d in (['G0', 'F1', 'R', 'R', 'F5', 'R', 'R', 'R'], ['G2', 'F6', 'R', 'R', 'F0', 'R', 'R'], ['G0', 'F5', 'R', 'G1', 'R', 'R', 'D', 'R', 'B1', 'R'],
+              ['G3', 'F2', 'R', 'F5', 'R', 'F2', 'R', 'R']):
+        hs.append(('fmt', d))
     # known finding K1 (two grammars with equal CRC-32) is replayed deterministically
     hs.append(('file', ['GK0', 'R', 'GK1', 'R']))
     hs.append(('file', ['G0', 'PK0', 'R', 'PK1', 'R']))
@@ -249,11 +255,20 @@ def fs_histories(seed, tier):
             else:
                 ops.append('N')
         ops.append('R')
-        mode = rng.choice(['file', 'dest', 'dir', 'dirlink'])
+        mode = rng.choice(['file', 'dest', 'dir', 'dirlink', 'fmt'])
+        if mode == 'fmt':
+            ops = [('F%d' % rng.randrange(len(PREFIXES_FMT))) if o[0] == 'P' else o for o in ops]
         if mode.startswith('dir'):
             ops = ['G%d' % rng.randrange(4)] + ['D' if o == 'N' else o for o in ops]
         hs.append((mode, ops))
     return hs
+
+
+def fnv64_hex(b):
+    h = 0xcbf29ce484222325
+    for x in b:
+        h = ((h ^ x) * 0x100000001b3) & 0xFFFFFFFFFFFFFFFF
+    return '%016x' % h
 
 
 def fs_lines(hs):
@@ -277,6 +292,8 @@ def fs_lines(hs):
                 lines.append('P ' + hx(K1P_PAIR[int(o[2:])]))
             elif o[0] == 'P':
                 lines.append('P ' + hx(PREFIXES[int(o[1:])]))
+            elif o[0] == 'F':
+                lines.append('P ' + hx(PREFIXES_FMT[int(o[1:])]))
     return lines
 
 
@@ -313,6 +330,25 @@ def run_fs(hs, workname):
             f.write(version + '\n' + build_time + '\n')
         with open(os.path.join(d, 'histories.txt'), 'w') as f:
             f.write('\n'.join(fs_lines(hs)) + '\n')
+        # rustfmt as a table for the model: every (valid grammar, format-mode prefix) output, unformatted -> formatted
+        if any(m == 'fmt' for m, _ in hs):
+            import zlib
+            with open(os.path.join(d, 'fmt.txt'), 'w') as ft:
+                n = 0
+                for i, tx in enumerate(texts):
+                    if outcome.get('t%d' % i) != 'OK':
+                        continue
+                    code = open(os.path.join(d, 't%d.code' % i), 'rb').read()
+                    for pf in PREFIXES_FMT:
+                        un = ('// This file was generated by Peginator v%s built at %s\n// CRC-32/ISO-HDLC of the grammar file: %08x\n'
+                              '// Any changes to it will be lost on regeneration\n// CRC-32/ISO-HDLC of the prefix: %08x\n\n%s\n'
+                              % (version, build_time, zlib.crc32(tx.encode()), zlib.crc32(pf.encode()), pf)).encode() + code
+                        fp = os.path.join(d, 'fmt%d.rs' % n)
+                        n += 1
+                        with open(fp, 'wb') as fh:
+                            fh.write(un)
+                        subprocess.run(['rustfmt', fp], stdout=subprocess.DEVNULL, stderr=subprocess.DEVNULL, timeout=60)
+                        ft.write('%s %s\n' % (fnv64_hex(un), fp))
         pi = subprocess.run([PVUNIT, 'fs', d], stdout=subprocess.PIPE, stderr=subprocess.DEVNULL, text=True, timeout=3000)
         pm = subprocess.run([PEGVERIF, 'fs', d], stdout=subprocess.PIPE, stderr=subprocess.PIPE, text=True, timeout=3000)
         if pm.returncode != 0:
@@ -342,7 +378,8 @@ def run_C18(seed, tier):
                 res['evaluations'] += 1
                 res['distribution'][(a or ['missing'])[0]] += 1
                 rp = dict(kind='fs', history=ops, mode=mode, run_index=k, impl=a, model=b, what='',
-                          ops_until_run=ops[:oi + 1], grammars=GRAMMARS_OK + list(K1_PAIR), bad_grammars=GRAMMARS_BAD, prefixes=PREFIXES)
+                          ops_until_run=ops[:oi + 1], grammars=GRAMMARS_OK + list(K1_PAIR), bad_grammars=GRAMMARS_BAD, prefixes=PREFIXES,
+                          prefixes_fmt=PREFIXES_FMT)
                 if a is None or a[0] == 'PANIC' or b is None:
                     rp['what'] = 'Compile::run panicked or produced no answer'
                     res['prop'].append(rp)
@@ -373,9 +410,9 @@ def run_C18(seed, tier):
     res['samples'] = [dict(mode=hs[j][0], ops=hs[j][1], impl=[im.get(('h%d' % j, str(q))) for q in range(hs[j][1].count('R'))]) for j in (0, 3, len(hs) - 1)]
     res['engine'] = 'fsdiff'
     res['rule'] = ('histories of {edit grammar (4 valid, 5 invalid texts, delete), set prefix (7 prefixes incl. proper prefixes of each other and empty), delete destination, run} '
-                   'of length <= 13 against the real Compile in a scratch directory, file / explicit destination / directory mode; per run: Result, destination content hash, rewritten or untouched; '
+                   'of length <= 13 against the real Compile in a scratch directory, file / explicit destination / directory / symlinked directory / `.format()` mode (prefixes rustfmt keeps and prefixes it rewrites); per run: Result, destination content hash, rewritten or untouched; '
                    'distinct per (mode, operation kinds)')
-    res['assumptions'] = ['rustfmt (`format()`) is not exercised: it rewrites the destination after the fact and is outside the model',
+    res['assumptions'] = ['rustfmt is a parameter of the model (`fmt`); the correspondence run gives the model a table built with the real rustfmt',
                           'the grammar compiler is a table built by calling the real library route once per grammar text']
     res['wall_s'] = time.time() - t0
     res['info'] = info
